@@ -378,10 +378,10 @@ func (e *Engine) harnessIntrinsic(st *State, f *Frame, fn *ssa.Function, name st
 		if c.IsFalse() {
 			return stDone
 		}
-		st.assume(c)
-		if !c.IsTrue() && !e.feasible(st) {
+		if !c.IsTrue() && !e.feasible(st, c) {
 			return stDone
 		}
+		st.assume(c)
 		return ret(nil)
 	case "vAssert":
 		id := strArg(args[1])
